@@ -4,7 +4,8 @@ test accepts only what the run-time gate accepts), D4 (created keys are written 
 D5 (abstract context state updated completely, after the node's own parameters were classified; the
 deleted-key availability test reads the state at node entry), D3 converse (the run-time gate rejects only
 what the compatibility test rejects), D6 (run time and inspection enumerate the same kinds of `_process_logic`
-parameters)."""
+parameters), D7/D8 (module boundary inspection | run: one forward value flow of node configurations - see the block
+comment above `_CfgFlow`)."""
 from __future__ import annotations
 
 import ast
@@ -79,6 +80,8 @@ def run(repo: Repo, R: Report) -> None:
     _created_keys_written(repo, R)
     # ------------------------------------------------------------------ D6
     _parameter_universe(repo, R)
+    # ------------------------------------------------------------------ D7 / D8
+    _same_node_config(repo, R)
 
     # ------------------------------------------------------------------ D5
     r_state = R.rule("C02-D5-context-state", "per node, after its own parameters were classified: every created key (incl. a probe's context_key) is recorded as produced by *this* node and un-deleted; suppressed keys of context processors become deleted; classification reads the live key_origin/deleted_keys", 7)
@@ -1126,3 +1129,594 @@ def _parameter_universe(repo: Repo, R: Report) -> None:
         shown = lambda t: ", ".join(f"{k}:{t[k]}" for k in _KINDS)  # noqa: E731
         R.check(not lost, r, rel, in_q, "keeps every parameter kind run time resolves", f"parameters of kind {', '.join(lost)} are resolved at run time ({rt_q}: {shown(rt)}) but `{norm(in_at)[:70]}` does not (always) enter them into the `parameters` metadata ({shown(ins)}): inspection neither classifies them nor reports the context key they need, their declared default is not found - an accepted configuration whose initial context holds every reported key fails with 'Unable to resolve parameter'", getattr(in_at, "lineno", in_f.lineno))
         R.check(not extra, r, rel, rt_q, "resolves every parameter kind inspection classifies", f"parameters of kind {', '.join(extra)} are classified by inspection ({in_q}: {shown(ins)}) but `{norm(rt_at)[:70]}` does not (always) resolve them at run time ({shown(rt)}): inspection reports an origin / a required context key for a parameter the node never reads", getattr(rt_at, "lineno", rt_f.lineno))
+
+
+# =====================================================================================================
+# D7 / D8: the node configuration that runs is the node configuration that was inspected
+# =====================================================================================================
+# Inspection builds its node objects by handing the caller's node dicts to the node factory; a run goes
+# <run entry>(configuration) -> ... -> node factory.  Both sides meet in shared functions (the factory and what it
+# calls).  Two necessary conditions of C02 live on that module boundary:
+#   D7  whatever the run side hands to a shared function as a node configuration carries, under "parameters", a
+#       key-preserving image of the declared parameters (no entry dropped, no name rewritten) - otherwise origins,
+#       required keys and unknown-parameter names reported by inspection describe another pipeline than the one run;
+#   D8  building a node for inspection does not add/remove entries of the caller-owned parameters mapping - the CLI
+#       (and any caller) inspects and then runs the *same* configuration object.
+# Both are decided by one forward value-flow analysis of "node configuration" values (flow- and context-insensitive,
+# interprocedural over resolved calls, `self.<attr>` fields joined by attribute name).
+CLI = "semantiva/cli/__init__.py"
+PIPELINE = "semantiva/pipeline/pipeline.py"
+_E: frozenset = frozenset()
+_COPY_FUNCS = ("dict", "copy", "OrderedDict", "MappingProxyType")
+_SEQ_FUNCS = ("list", "tuple", "sorted", "reversed", "iter")
+_BUILTIN_METHODS = {"get", "pop", "setdefault", "copy", "items", "keys", "values", "append", "extend", "insert", "add", "update", "clear", "popitem", "remove", "discard", "index", "count", "sort", "reverse", "join", "format", "startswith", "endswith", "strip", "split", "lower", "upper"}
+_KEY_REMOVERS = {"pop", "popitem", "clear", "__delitem__"}
+_KEY_ADDERS = {"update", "setdefault", "__setitem__"}
+
+
+def _const_str(e: Optional[ast.AST]) -> Optional[str]:
+    return e.value if isinstance(e, ast.Constant) and isinstance(e.value, str) else None
+
+
+class _CfgFlow:
+    """Abstract values (hashable tuples):
+      ("spec", own, pmsh, bad)  a sequence of node configurations (flags describe its elements)
+      ("nd",   own, pmsh, bad)  a node configuration: *own* - may be the caller's dict object itself; *pmsh* - its
+                                "parameters" entry may be the caller's mapping object; *bad* - indices (into
+                                self.bads) of constructs that made its "parameters" entry differ in key set from the
+                                declared one
+      ("pm",   shared, bad)     a parameters mapping
+      ("tup",  (kinds, ...))    a tuple display (multiple return values)
+    """
+
+    def __init__(self, repo: Repo) -> None:
+        self.repo = repo
+        self.env: Dict[int, Dict[str, Set[tuple]]] = {}
+        self.ret: Dict[int, Set[tuple]] = {}
+        self.attr: Dict[str, Set[tuple]] = {}
+        self.funcs: Dict[int, Tuple[object, ast.AST]] = {}
+        self.bads: List[Tuple[str, str, ast.AST, str]] = []
+        self._bad_ix: Dict[Tuple[int, str], int] = {}
+        self.mutations: Dict[int, Tuple[str, str, ast.AST, str]] = {}
+        self.calls: Dict[int, Tuple[str, str, ast.Call, List[int], Set[tuple]]] = {}
+        self.changed = False
+        self.final = False  # second phase: a "parameters" value of still unknown origin counts as not derived
+        self._attr_readers: Optional[Dict[str, List[Tuple[object, ast.AST]]]] = None
+        self._cur: Tuple[object, ast.AST] = (None, None)  # type: ignore[assignment]
+
+    # ---------------------------------------------------------------- bookkeeping
+    def _qn(self, fn: ast.AST) -> str:
+        from ..engine import qualname_of
+
+        return qualname_of(fn)
+
+    def _bad(self, node: ast.AST, why: str) -> int:
+        key = (id(node), why)
+        if key not in self._bad_ix:
+            mod, fn = self._cur
+            self._bad_ix[key] = len(self.bads)
+            self.bads.append((mod.rel, self._qn(fn), node, why))
+        return self._bad_ix[key]
+
+    def _mutation(self, node: ast.AST, what: str) -> None:
+        if id(node) not in self.mutations:
+            mod, fn = self._cur
+            self.mutations[id(node)] = (mod.rel, self._qn(fn), node, what)
+
+    def _activate(self, mod, fn: ast.AST) -> None:
+        if id(fn) not in self.funcs:
+            self.funcs[id(fn)] = (mod, fn)
+            self.env.setdefault(id(fn), {})
+            self.ret.setdefault(id(fn), set())
+            self.repo.consulted.add(mod.rel)
+            self.changed = True
+
+    def _join(self, table: Dict[str, Set[tuple]], name: str, kinds) -> None:
+        if not kinds:
+            return
+        cur = table.setdefault(name, set())
+        if self._merge(cur, kinds):
+            self.changed = True
+
+    @staticmethod
+    def _merge(cur: Set[tuple], kinds) -> bool:
+        """join: one value per (kind, flags) - the sets of offending constructs are united (keeps the lattice small)"""
+        changed = False
+        for k in kinds:
+            if k in cur:
+                continue
+            if k[0] == "tup":
+                cur.add(k)
+                changed = True
+                continue
+            same = next((c for c in cur if c[:-1] == k[:-1]), None)
+            if same is None:
+                cur.add(k)
+                changed = True
+            elif not (k[-1] <= same[-1]):
+                cur.discard(same)
+                cur.add(same[:-1] + (same[-1] | k[-1],))
+                changed = True
+        return changed
+
+    def bind_param(self, mod, fn: ast.AST, name: str, kinds) -> None:
+        if kinds:
+            self._activate(mod, fn)
+            self._join(self.env[id(fn)], name, kinds)
+
+    def _set_attr(self, name: str, kinds) -> None:
+        if not kinds:
+            return
+        before = bool(self.attr.get(name))
+        self._join(self.attr, name, kinds)
+        if not before:
+            if self._attr_readers is None:
+                self._attr_readers = {}
+                for m, _qn, f in self.repo.all_functions():
+                    for n in walk_no_nested(f):
+                        if isinstance(n, ast.Attribute) and isinstance(n.ctx, ast.Load) and _is_name(n.value, "self"):
+                            self._attr_readers.setdefault(n.attr, []).append((m, f))
+            for m, f in self._attr_readers.get(name, []):
+                self._activate(m, f)
+
+    # ---------------------------------------------------------------- driver
+    def solve(self) -> None:
+        for phase in (False, True):
+            self.final = phase
+            for _round in range(60):
+                self.changed = False
+                for fid in list(self.funcs):
+                    self._analyse(fid)
+                if not self.changed:
+                    break
+            else:
+                raise AnalysisError("node-configuration value flow did not stabilise")
+
+    def _analyse(self, fid: int) -> None:
+        mod, fn = self.funcs[fid]
+        self._cur = (mod, fn)
+        self._env = self.env[fid]
+        for n in walk_no_nested(fn, include_root=False):
+            if isinstance(n, (ast.Assign, ast.AnnAssign)):
+                if n.value is None:
+                    continue
+                v = self.eval(n.value)
+                for t in _targets(n):
+                    self._bind_target(t, v, n.value, n)
+            elif isinstance(n, (ast.For, ast.AsyncFor)):
+                self._bind_iter(n.target, n.iter)
+            elif isinstance(n, ast.Return) and n.value is not None:
+                if self._merge(self.ret[fid], self.eval(n.value)):
+                    self.changed = True
+            elif isinstance(n, ast.Call):
+                self.eval(n)
+            elif isinstance(n, ast.Delete):
+                for t in n.targets:
+                    if isinstance(t, ast.Subscript):
+                        self._mutate(t.value, "__delitem__", n, _const_str(t.slice))
+
+    # ---------------------------------------------------------------- bindings
+    def _bind_name(self, name: str, kinds) -> None:
+        self._join(self._env, name, kinds)
+
+    def _bind_target(self, t: ast.AST, v, value: ast.AST, st: ast.AST) -> None:
+        if isinstance(t, ast.Name):
+            self._bind_name(t.id, v)
+        elif isinstance(t, (ast.Tuple, ast.List)):
+            for k in v:
+                if k[0] == "tup" and len(k[1]) == len(t.elts):
+                    for sub, kinds in zip(t.elts, k[1]):
+                        self._bind_target(sub, kinds, value, st)
+        elif isinstance(t, ast.Attribute) and _is_name(t.value, "self"):
+            self._set_attr(t.attr, v)
+        elif isinstance(t, ast.Subscript):
+            self._store(t.value, t.slice, value, v, st)
+
+    def _store(self, recv: ast.AST, key_e: ast.AST, value: Optional[ast.AST], v, st: ast.AST) -> None:
+        """recv[key] = value"""
+        base = self.eval(recv)
+        key = _const_str(key_e)
+        nds = [k for k in base if k[0] == "nd"]
+        pms = [k for k in base if k[0] == "pm"]
+        if nds and key == "parameters":
+            vp = [k for k in v if k[0] == "pm"]
+            new = set()
+            for nd in nds:
+                if vp:
+                    for p in vp:
+                        new.add(("nd", nd[1], p[1], p[2]))
+                elif self.final:
+                    ix = self._bad(st, ("" if _is_literal(value) else "?") + "the \"parameters\" entry is replaced by a value that is not derived from the declared parameters")
+                    new.add(("nd", nd[1], False, frozenset({ix})))
+                if nd[1] and (vp or (self.final and _is_literal(value))):
+                    # the stored object becomes reachable from the caller's dict
+                    if isinstance(value, ast.Name):
+                        self._bind_name(value.id, {("pm", True, p[2]) for p in vp})
+                    if not vp or any(p[2] for p in vp):
+                        self._mutation(st, "stores a \"parameters\" mapping with other entries than the declared ones into the caller-owned node configuration")
+            if isinstance(recv, ast.Name):
+                self._bind_name(recv.id, new)
+        if pms or (not base and isinstance(recv, ast.Name)):
+            # accumulate-loop form of a copy: for k, v in P.items(): X[k] = v
+            loop = next((a for a in ancestors(st) if isinstance(a, (ast.For, ast.AsyncFor))), None)
+            src, keyvar = self._items_source(loop.iter, loop.target) if loop is not None else (None, None)
+            if src is not None and any(k[0] == "pm" for k in src) and isinstance(recv, ast.Name):
+                ident = keyvar is not None and _is_name(key_e, keyvar)
+                guarded = any(isinstance(a, (ast.If, ast.Try, ast.While, ast.Match)) for a in _between(st, loop)) or any(isinstance(x, (ast.Continue, ast.Break)) for x in ast.walk(loop))
+                bad = frozenset().union(*[k[2] for k in src if k[0] == "pm"])
+                if not ident or guarded:
+                    bad = bad | {self._bad(loop, "entries of the declared parameters are dropped or renamed while they are copied" if ident else "parameter names are rewritten while the declared parameters are copied")}
+                self._bind_name(recv.id, {("pm", False, bad)})
+            elif pms:
+                self._mutate(recv, "__setitem__", st, key)
+
+    def _items_source(self, it: ast.AST, target: ast.AST):
+        """(kinds of the mapping iterated, name of the key variable) for `for k, v in M.items()` / `for k in M[.keys()]`"""
+        if isinstance(it, ast.Call) and isinstance(it.func, ast.Attribute) and not it.args:
+            if it.func.attr == "items":
+                kv = target.elts[0].id if isinstance(target, ast.Tuple) and len(target.elts) == 2 and isinstance(target.elts[0], ast.Name) else None
+                return self.eval(it.func.value), kv
+            if it.func.attr == "keys":
+                return self.eval(it.func.value), target.id if isinstance(target, ast.Name) else None
+            return None, None
+        if isinstance(it, ast.Call) and call_name(it) in _SEQ_FUNCS and len(it.args) == 1:
+            return self._items_source(it.args[0], target)
+        v = self.eval(it)
+        if any(k[0] == "pm" for k in v):
+            return v, target.id if isinstance(target, ast.Name) else None
+        return None, None
+
+    def _elems(self, kinds) -> Set[tuple]:
+        return {("nd",) + k[1:] for k in kinds if k[0] == "spec"}
+
+    def _bind_iter(self, target: ast.AST, it: ast.AST) -> None:
+        if isinstance(it, ast.Call) and call_name(it) == "enumerate" and it.args:
+            if isinstance(target, (ast.Tuple, ast.List)) and len(target.elts) == 2:
+                self._bind_iter(target.elts[1], it.args[0])
+            return
+        if isinstance(it, ast.Call) and call_name(it) == "zip":
+            if isinstance(target, (ast.Tuple, ast.List)) and len(target.elts) == len(it.args):
+                for t, a in zip(target.elts, it.args):
+                    self._bind_iter(t, a)
+            return
+        if isinstance(target, ast.Name):
+            self._bind_name(target.id, self._elems(self.eval(it)))
+
+    def _mutate(self, recv: ast.AST, how: str, node: ast.AST, key: Optional[str] = None) -> None:
+        """a key-adding / key-removing operation on the mapping *recv*"""
+        base = self.eval(recv)
+        pms = [k for k in base if k[0] == "pm"]
+        nds = [k for k in base if k[0] == "nd"]
+        if pms:
+            if any(k[1] for k in pms):
+                self._mutation(node, f"`{norm(node)[:80]}` {'removes entries from' if how in _KEY_REMOVERS else 'adds entries to'} a parameters mapping that may be the caller's own object")
+            if how in _KEY_REMOVERS and isinstance(recv, ast.Name):
+                ix = self._bad(node, "entries are removed from the parameters mapping")
+                self._bind_name(recv.id, {("pm", k[1], k[2] | {ix}) for k in pms})
+        if nds and how in _KEY_REMOVERS and (key == "parameters" or how in ("clear", "popitem")):
+            if any(k[1] for k in nds):
+                self._mutation(node, f"`{norm(node)[:80]}` removes the \"parameters\" entry of the caller-owned node configuration")
+            if isinstance(recv, ast.Name):
+                ix = self._bad(node, "the \"parameters\" entry is removed from the node configuration")
+                self._bind_name(recv.id, {("nd", k[1], False, k[3] | {ix}) for k in nds})
+
+    # ---------------------------------------------------------------- expressions
+    def _copy(self, kinds, deep: bool = False) -> Set[tuple]:
+        out = set()
+        for k in kinds:
+            if k[0] == "nd":
+                out.add(("nd", False, k[2] and not deep, k[3]))
+            elif k[0] == "pm":
+                out.add(("pm", False, k[2]))
+            elif k[0] == "spec":
+                out.add(("spec", k[1] and not deep, k[2] and not deep, k[3]))
+        return out
+
+    def eval(self, e: Optional[ast.AST]) -> Set[tuple]:
+        if e is None:
+            return set()
+        if isinstance(e, ast.Name):
+            return set(self._env.get(e.id, ()))
+        if isinstance(e, ast.Attribute):
+            if _is_name(e.value, "self"):
+                return set(self.attr.get(e.attr, ()))
+            return set()
+        if isinstance(e, ast.Subscript):
+            base = self.eval(e.value)
+            out: Set[tuple] = set()
+            key = e.slice.value if isinstance(e.slice, ast.Constant) else None
+            for k in base:
+                if k[0] == "nd" and key == "parameters":
+                    out.add(("pm", k[2], k[3]))
+                elif k[0] == "spec":
+                    out.add(k if isinstance(e.slice, ast.Slice) else ("nd",) + k[1:])
+                elif k[0] == "tup" and isinstance(key, int) and not isinstance(key, bool) and -len(k[1]) <= key < len(k[1]):
+                    out |= set(k[1][key])
+            return out
+        if isinstance(e, ast.BoolOp):
+            out = set()
+            for v in e.values:
+                out |= self.eval(v)
+            return out
+        if isinstance(e, ast.IfExp):
+            return self.eval(e.body) | self.eval(e.orelse)
+        if isinstance(e, ast.NamedExpr):
+            v = self.eval(e.value)
+            if isinstance(e.target, ast.Name):
+                self._bind_name(e.target.id, v)
+            return v
+        if isinstance(e, (ast.Await, ast.Starred)):
+            return self.eval(e.value)
+        if isinstance(e, ast.Tuple):
+            parts = tuple(frozenset(self.eval(x)) for x in e.elts)
+            return {("tup", parts)} if any(parts) else set()
+        if isinstance(e, (ast.List, ast.Set)):
+            out = set()
+            for x in e.elts:
+                v = self.eval(x)
+                out |= {k for k in v if k[0] == "spec"} if isinstance(x, ast.Starred) else {("spec",) + k[1:] for k in v if k[0] == "nd"}
+            return out
+        if isinstance(e, ast.Dict):
+            return self._eval_dict(e)
+        if isinstance(e, ast.DictComp):
+            return self._eval_dictcomp(e)
+        if isinstance(e, (ast.ListComp, ast.SetComp, ast.GeneratorExp)):
+            for g in e.generators:
+                self._bind_iter(g.target, g.iter)
+            v = self.eval(e.elt)
+            return {("spec",) + k[1:] for k in v if k[0] == "nd"}
+        if isinstance(e, ast.Call):
+            return self._eval_call(e)
+        return set()
+
+    def _with_parameters(self, bases, pv: Optional[ast.AST], at: ast.AST, fresh_ok: bool) -> Set[tuple]:
+        """node configuration(s) *bases* (copied) with the "parameters" entry set to the value of *pv*"""
+        v = self.eval(pv)
+        vp = [k for k in v if k[0] == "pm"]
+        out = set()
+        owners = [k for k in bases if k[0] == "nd"] or ([("nd", False, False, frozenset())] if fresh_ok else [])
+        for nd in owners:
+            if vp:
+                for p in vp:
+                    out.add(("nd", False, p[1], p[2]))
+            elif self.final:
+                ix = self._bad(at, ("" if _is_literal(pv) else "?") + "the \"parameters\" entry is set to a value that is not derived from the declared parameters")
+                out.add(("nd", False, False, frozenset({ix})))
+        return out
+
+    def _eval_dict(self, e: ast.Dict) -> Set[tuple]:
+        spread: Set[tuple] = set()
+        pv = None
+        has_proc = False
+        for k, v in zip(e.keys, e.values):
+            if k is None:
+                spread |= self._copy(self.eval(v))
+            elif _const_str(k) == "parameters":
+                pv = v
+            elif _const_str(k) == "processor":
+                has_proc = True
+        if pv is not None and (has_proc or any(k[0] == "nd" for k in spread)):
+            return self._with_parameters(spread, pv, e, fresh_ok=has_proc)
+        return spread
+
+    def _eval_dictcomp(self, e: ast.DictComp) -> Set[tuple]:
+        if len(e.generators) != 1:
+            return set()
+        g = e.generators[0]
+        src, keyvar = self._items_source(g.iter, g.target)
+        if src is None:
+            return set()
+        out: Set[tuple] = set()
+        for k in src:
+            if k[0] == "pm":
+                ident = keyvar is not None and _is_name(e.key, keyvar)
+                bad = k[2]
+                if not ident:
+                    bad = bad | {self._bad(e, "parameter names are rewritten")}
+                elif g.ifs:
+                    bad = bad | {self._bad(e, "entries of the declared parameters are dropped")}
+                out.add(("pm", False, bad))
+            elif k[0] == "nd":
+                out.add(("nd", False, k[2], k[3]))
+        return out
+
+    def _eval_call(self, e: ast.Call) -> Set[tuple]:
+        f = e.func
+        # ---- methods of dict / list values that carry a kind
+        if isinstance(f, ast.Attribute) and f.attr in _BUILTIN_METHODS:
+            recv = self.eval(f.value)
+            a = f.attr
+            if recv:
+                nds = [k for k in recv if k[0] == "nd"]
+                key = _const_str(e.args[0]) if e.args else None
+                if a in ("get", "pop", "setdefault"):
+                    out = set()
+                    if key == "parameters":
+                        out |= {("pm", k[2], k[3]) for k in nds}
+                        if len(e.args) > 1:
+                            out |= {k for k in self.eval(e.args[1]) if k[0] == "pm"}
+                    if a == "pop":
+                        self._mutate(f.value, "pop", e, key)
+                    elif a == "setdefault" and any(k[0] == "pm" for k in recv):
+                        self._mutate(f.value, "setdefault", e, key)
+                    return out
+                if a == "copy":
+                    return self._copy(recv)
+                if a in ("clear", "popitem"):
+                    self._mutate(f.value, a, e)
+                    return set()
+                if a == "update":
+                    if nds:
+                        pv = kwarg(e, "parameters")
+                        if pv is None and e.args and isinstance(e.args[0], ast.Dict):
+                            pv = next((v for k, v in zip(e.args[0].keys, e.args[0].values) if _const_str(k) == "parameters"), None)
+                        if pv is not None:
+                            self._store(f.value, ast.Constant(value="parameters"), pv, self.eval(pv), stmt_of(e))
+                    if any(k[0] == "pm" for k in recv):
+                        self._mutate(f.value, "update", e)
+                    return set()
+                if a in ("append", "add", "insert") and isinstance(f.value, ast.Name) and e.args:
+                    v = self.eval(e.args[-1])
+                    self._bind_name(f.value.id, {("spec",) + k[1:] for k in v if k[0] == "nd"})
+                    return set()
+                if a == "extend" and isinstance(f.value, ast.Name) and e.args:
+                    self._bind_name(f.value.id, {k for k in self.eval(e.args[0]) if k[0] == "spec"})
+                    return set()
+                return set()
+            if a in ("append", "add", "insert", "extend") and isinstance(f.value, ast.Name) and e.args:
+                v = self.eval(e.args[-1])
+                self._bind_name(f.value.id, {("spec",) + k[1:] for k in v if k[0] == "nd"} if a != "extend" else {k for k in v if k[0] == "spec"})
+                return set()
+            if a in ("get", "items", "keys", "values", "copy"):
+                return set()
+        # ---- copies / sequence wrappers
+        cn = call_name(e) if isinstance(f, ast.Name) else (f.attr if isinstance(f, ast.Attribute) and _is_name(f.value, "copy") else None)
+        if cn in _COPY_FUNCS and (isinstance(f, ast.Name) or cn == "copy"):
+            out = set()
+            if e.args:
+                out = self._copy(self.eval(e.args[0]))
+            pv = kwarg(e, "parameters")
+            if cn != "copy" and pv is not None:
+                return self._with_parameters(out, pv, e, fresh_ok=kwarg(e, "processor") is not None)
+            if out or not e.args:
+                return out
+        if cn == "deepcopy" and e.args:
+            return self._copy(self.eval(e.args[0]), deep=True)
+        if isinstance(f, ast.Name) and f.id in _SEQ_FUNCS and len(e.args) >= 1:
+            v = self.eval(e.args[0])
+            keep = {k for k in v if k[0] == "spec"}
+            if keep:
+                return keep
+        # ---- calls into the package
+        argk = [self.eval(x) for x in e.args]
+        kwk = {k.arg: self.eval(k.value) for k in e.keywords if k.arg}
+        if not any(argk) and not any(kwk.values()):
+            return set()
+        mod, fn = self._cur
+        targets = self.repo.resolve_call(mod, e)
+        if not targets and isinstance(f, ast.Attribute) and f.attr not in _BUILTIN_METHODS:
+            targets = self.repo.resolve_call_by_name(e)
+        out = set()
+        tids: List[int] = []
+        from ..engine import enclosing_class
+
+        for tm, tn in targets:
+            if not isinstance(tn, FuncNode):
+                continue
+            a = tn.args
+            params = [x.arg for x in list(a.posonlyargs) + list(a.args)]
+            static = any(dotted_name(d) == "staticmethod" for d in tn.decorator_list)
+            if enclosing_class(tn) is not None and not static and params and (isinstance(f, ast.Attribute) or tn.name == "__init__"):
+                params = params[1:]
+            names = set(params) | {x.arg for x in a.kwonlyargs}
+            bound = False
+            for p, kinds in zip(params, argk):
+                if kinds:
+                    self.bind_param(tm, tn, p, kinds)
+                    bound = True
+            for p, kinds in kwk.items():
+                if kinds and p in names:
+                    self.bind_param(tm, tn, p, kinds)
+                    bound = True
+            if bound:
+                tids.append(id(tn))
+                out |= self.ret.get(id(tn), set())
+        if tids:
+            allk = set().union(*argk, *kwk.values())
+            self.calls[id(e)] = (mod.rel, self._qn(fn), e, tids, allk)
+        return out
+
+
+def _is_literal(e: Optional[ast.AST]) -> bool:
+    """a value that visibly does not depend on anything: constant, empty/literal display, dict()/list() without arguments"""
+    if e is None or isinstance(e, ast.Constant):
+        return True
+    if isinstance(e, (ast.Dict, ast.List, ast.Tuple, ast.Set)):
+        return not any(isinstance(x, (ast.Name, ast.Attribute, ast.Call, ast.Subscript)) for x in ast.walk(e))
+    return isinstance(e, ast.Call) and isinstance(e.func, ast.Name) and e.func.id in ("dict", "list") and not e.args and not e.keywords
+
+
+def _between(node: ast.AST, top: ast.AST) -> List[ast.AST]:
+    out = []
+    for a in ancestors(node):
+        if a is top:
+            break
+        out.append(a)
+    return out
+
+
+def _run_entry(repo: Repo, bpi: ast.AST) -> Tuple[object, ast.AST, str]:
+    """The function a configuration is handed to for running: in the CLI, the constructor that receives the very
+    expression the inspection builder was given (`build_pipeline_inspection(X)` ... `Pipeline(X, ...)`)."""
+    cli = repo.module(CLI)
+    for qn, f in cli.defs.items():
+        if not isinstance(f, FuncNode):
+            continue
+        given = [ast.dump(c.args[0]) for c in calls_in(f) if c.args and any(t[1] is bpi for t in repo.resolve_call(cli, c))]
+        if not given:
+            continue
+        for c in calls_in(f):
+            if c.args and ast.dump(c.args[0]) in given:
+                for tm, tn in repo.resolve_call(cli, c):
+                    if tn is not bpi and isinstance(tn, FuncNode) and tn.name == "__init__" and len(tn.args.args) > 1:
+                        return tm, tn, tn.args.args[1].arg
+    fn = repo.func(PIPELINE, "Pipeline.__init__")
+    if len(fn.args.args) < 2:
+        raise AnalysisError("Pipeline.__init__: configuration parameter not found")
+    return repo.module(PIPELINE), fn, fn.args.args[1].arg
+
+
+def _same_node_config(repo: Repo, R: Report) -> None:
+    r7 = R.rule("C02-D7-run-config-is-inspected-config", "every node configuration the run side (from the constructor the CLI hands the inspected configuration to, through canonical-spec building and node instantiation) passes into code shared with inspection (the node factory and its helpers) carries under \"parameters\" a key-preserving image of the declared parameters: no entry is filtered out and no parameter name is rewritten on the way - inspection classifies origins, required keys and unknown names on the declared entries", 1)
+    r8 = R.rule("C02-D8-inspection-keeps-caller-config", "building nodes for inspection never adds or removes entries of a caller-owned \"parameters\" mapping (or the entry itself): the configuration object that was inspected is the one that is run afterwards", 1)
+    bpi = repo.func(BUILDER, BPI)
+    bmod = repo.module(BUILDER)
+    if not bpi.args.args:
+        raise AnalysisError("build_pipeline_inspection: configuration parameter not found")
+    clean_spec = {("spec", True, True, frozenset())}
+    # -- inspection side
+    ins = _CfgFlow(repo)
+    ins.bind_param(bmod, bpi, bpi.args.args[0].arg, clean_spec)
+    ins.solve()
+    shared_fns = {fid for fid, env in ins.env.items() if fid != id(bpi) and any(k[0] == "nd" for ks in env.values() for k in ks)}
+    if not shared_fns:
+        raise AnalysisError("build_pipeline_inspection: no function receives the node configuration (node factory not found)")
+    for rel, qn, node, what in sorted(ins.mutations.values(), key=lambda t: (t[0], getattr(t[2], "lineno", 0))):
+        R.violation(r8, rel, qn, norm(stmt_of(node)), what + ": after inspection the caller's configuration has other parameter entries than the ones inspection reported on, and the pipeline built from it next (inspect-then-run, as `semantiva run` does) is not the one that was accepted", getattr(node, "lineno", 0))
+    if not ins.mutations:
+        R.ok(r8, BUILDER, BPI, f"{len(ins.funcs)} function(s) reached with the caller's node configuration", "no key-adding / key-removing operation on a caller-owned parameters mapping", bpi.lineno)
+    # -- run side
+    emod, efn, eparam = _run_entry(repo, bpi)
+    run = _CfgFlow(repo)
+    run.bind_param(emod, efn, eparam, clean_spec)
+    run.solve()
+    sinks = []
+    for rel, qn, call, tids, kinds in run.calls.values():
+        nds = [k for k in kinds if k[0] == "nd"]
+        if not nds or not any(t in shared_fns for t in tids):
+            continue
+        caller = next((fid for fid, (m, f) in run.funcs.items() if m.rel == rel and run._qn(f) == qn), None)
+        if caller in shared_fns:
+            continue  # inside shared code: both sides pass through here
+        sinks.append((rel, qn, call, nds))
+    if not sinks:
+        raise AnalysisError("run side: no call hands a node configuration to the code inspection builds its nodes with (value flow from the run entry lost)")
+    shared_names = {(m.rel, run._qn(f)) for fid, (m, f) in run.funcs.items() if fid in shared_fns}
+    reported: Set[int] = set()
+    unknown: List[str] = []
+    for rel, qn, call, nds in sorted(sinks, key=lambda s: (s[0], s[2].lineno)):
+        # a construct inside shared code acts on both sides alike: only the run side's own constructs count
+        bad = sorted(ix for ix in set().union(*[k[3] for k in nds]) if (run.bads[ix][0], run.bads[ix][1]) not in shared_names)
+        for ix in [i for i in bad if run.bads[i][3].startswith("?")]:
+            unknown.append(f"{run.bads[ix][0]}:{getattr(run.bads[ix][2], 'lineno', 0)} `{norm(run.bads[ix][2])[:80]}`")
+        bad = [i for i in bad if not run.bads[i][3].startswith("?")]
+        if not bad:
+            R.ok(r7, rel, qn, norm(call)[:100], "\"parameters\" is a key-preserving image of the declared parameters", call.lineno)
+        for ix in bad:
+            if ix in reported:
+                continue
+            reported.add(ix)
+            brel, bqn, node, why = run.bads[ix]
+            R.violation(r7, brel, bqn, norm(stmt_of(node)), f"`{norm(node)[:90]}`: {why} on the way from the run entry to `{norm(call)[:60]}` ({rel}: {qn}); inspection builds its node from the declared entries, so the origin / required keys / unknown-parameter names it reports are not those of the node that runs (an entry inspection classified as 'configuration' is resolved from context or default or is unresolvable at run time; a name inspection rejects is accepted)", getattr(node, "lineno", 0))
+    if unknown and not reported:
+        raise AnalysisError("run side: the \"parameters\" entry handed to the node factory is computed in a way the value flow does not understand: " + "; ".join(sorted(set(unknown))))
